@@ -251,13 +251,12 @@ impl Ind {
             Ind::Atr(i) => vec![i.next(x)],
             Ind::Macd(i) => {
                 let o = i.next(x);
-                let o2 = o.clone();
-                let t: (f64, f64, f64) = o2.into();
-                assert!(t.0.to_bits() == o.macd.to_bits() || (t.0.is_nan() && o.macd.is_nan()));
+                tuple3(o.clone().into(), [o.macd, o.signal, o.histogram]);
                 vec![o.macd, o.signal, o.histogram]
             }
             Ind::Ppo(i) => {
                 let o = i.next(x);
+                tuple3(o.clone().into(), [o.ppo, o.signal, o.histogram]);
                 vec![o.ppo, o.signal, o.histogram]
             }
             Ind::Rsi(i) => vec![i.next(x)],
@@ -291,10 +290,12 @@ impl Ind {
             Ind::Atr(i) => vec![i.next(b)],
             Ind::Macd(i) => {
                 let o = i.next(b);
+                tuple3(o.clone().into(), [o.macd, o.signal, o.histogram]);
                 vec![o.macd, o.signal, o.histogram]
             }
             Ind::Ppo(i) => {
                 let o = i.next(b);
+                tuple3(o.clone().into(), [o.ppo, o.signal, o.histogram]);
                 vec![o.ppo, o.signal, o.histogram]
             }
             Ind::Rsi(i) => vec![i.next(b)],
@@ -312,6 +313,8 @@ impl Ind {
             }
             Ind::Ce(i) => {
                 let o = i.next(b);
+                let t: (f64, f64) = o.clone().into();
+                tuple3((t.0, t.1, 0.0), [o.long, o.short, 0.0]);
                 vec![o.long, o.short]
             }
             Ind::Cci(i) => vec![i.next(b)],
@@ -425,6 +428,18 @@ impl Ind {
             Ind::Ce(i) => Some(i.multiplier()),
             _ => None,
         }
+    }
+}
+
+thread_local! {
+    /// set when the documented tuple conversion of an output struct (MACD, PPO: (line, signal, histogram); CE: (long, short))
+    /// disagrees bit-for-bit with its named fields; the replayer reads and clears it after every call
+    pub static TUPLE_MISMATCH: std::cell::Cell<bool> = std::cell::Cell::new(false);
+}
+
+fn tuple3(t: (f64, f64, f64), f: [f64; 3]) {
+    if t.0.to_bits() != f[0].to_bits() || t.1.to_bits() != f[1].to_bits() || t.2.to_bits() != f[2].to_bits() {
+        TUPLE_MISMATCH.with(|c| c.set(true));
     }
 }
 
